@@ -14,8 +14,8 @@ from vf.harness import assemble
 LEVEL = "fault_enumeration"
 RULE = (
     "fault enumeration: valid generated programs rendered with random comments, blank lines, indentation, multi-line /* */ comments, "
-    "blocks, macro definitions and (nested) .include files x 9 classes of erroneous statement (undefined symbol in an operand / in a data "
-    "directive, bad size suffix, bad outer / inner index register, unterminated string before a newline / at end of input, size suffix "
+    "blocks, macro definitions and (nested) .include files x 12 classes of erroneous statement (undefined symbol in an operand / in a data "
+    "directive / in a data list continued over two lines, unterminated string with an escaped quote followed by lines holding quote characters, bad size suffix, bad outer / inner index register, unterminated string before a newline / at end of input, size suffix "
     "missing at end of line) inserted at every statement position (thorough) or 8 positions (quick), in the main file and in included "
     "files; the reported file, zero-based line, quoted line text and (lexical errors) column are judged against the known insertion point; "
     "distinct by hash of (rendered files, fault); non-trivial = every case (an error is always injected)"
@@ -37,6 +37,11 @@ FAULTS = {
     "unterminated_string_backslash": ("scan", ".ascii 'C:\\snes\\", "'C:", 0),
     "unterminated_string_at_eof": ("scan_eof", ".ascii 'abc", "'abc", 0),
     "suffix_missing_at_eol": ("scan", "lda.", "lda.", 4),
+    # a data list continued on the next line: the statement spans two lines; the location may name either of them (and quotes that one)
+    "undefined_data_continued": ("node2", ".dw 1, 2,\n  3, undefined_zz9", None, 0),
+    "undefined_data_continued_first": ("node2", ".dl undefined_zz9, 2,\n  3", None, 0),
+    # an escaped quote inside the unterminated string, quote characters on later lines
+    "unterminated_string_escaped_quote": ("scan", ".ascii 'Don\\'t panic\n.ascii 'Bye'\nrts ; that's all", "'Don", 0),
 }
 LOC_RE = re.compile(r"(?P<file>[\w./-]+):(?P<line>-?\d+)(?::(?P<col>-?\d+))?")
 
@@ -81,7 +86,7 @@ def check_case(res: Res, p: dict, name: str, where: tuple[list, int], lay_seed: 
         del lst[i]
     file_text = main if fname == "t.s" else files[fname].rstrip("\n")
     flines = file_text.split("\n")
-    if line >= len(flines) or text not in flines[line]:
+    if line >= len(flines) or text.split("\n")[0] not in flines[line]:
         res.count("harness_bookkeeping_skipped")      # the insertion point could not be located in the rendered file: not a case
         return
     if kind == "scan_eof":
@@ -111,6 +116,9 @@ def check_case(res: Res, p: dict, name: str, where: tuple[list, int], lay_seed: 
         res.violate("error-not-reported", f"injected {name} at {fname}:{line} but the program assembled", wit)
         return
     etext = r.err_text if r.err_kind == "returned" else str(r.exc)
+    span = 2 if kind == "node2" else 1
+    if kind == "node2":
+        kind = "node"
     if kind == "node" and r.err_kind != "NodeError" and not LOC_RE.search(etext):
         # another exception type without location (e.g. a KeyError escaping): not what this fault class is about
         res.count("other_error_kind_unjudged")
@@ -124,13 +132,15 @@ def check_case(res: Res, p: dict, name: str, where: tuple[list, int], lay_seed: 
         res.violate("no-location", f"{name}: the error carries no <file>:<line> location: {etext[:200]!r}", wit)
         return
     want_col = None if kind == "node" else want_text.index(marker) + moff
-    good = [l for l in locs if l[0] == fname and l[1] == line and (want_col is None or l[2] == want_col)]
+    good = [l for l in locs if l[0] == fname and line <= l[1] < line + span and (want_col is None or l[2] == want_col)]
     if not good:
         got = locs[0]
         res.violate(classify(name, got[1], line, got[2]),
                     f"{name}: reported {got[0]}:{got[1]}" + (f":{got[2]}" if got[2] is not None else "") + f", the offending {'character' if want_col is not None else 'statement'} is at "
                     f"{fname}:{line}" + (f":{want_col}" if want_col is not None else "") + f" in {want_text!r}; message {etext[:160]!r}", wit)
         return
+    if span > 1:
+        want_text = flines[good[0][1]]
     if want_text.strip() and want_text not in etext.split("\n") and want_text.strip() not in etext:
         quoted = [ln for ln in etext.split("\n")[1:3]]
         res.violate("wrong-location", f"{name}: location {fname}:{line} is right but the quoted text is {quoted!r}, the line reads {want_text!r}", wit)
@@ -153,7 +163,7 @@ def run_shard(shard: dict) -> Res:
                     p["prog"] = ex
         for name, (kind, *_rest) in FAULTS.items():
             pts = positions(p["prog"])
-            if kind == "node":
+            if kind in ("node", "node2"):
                 pts = [w for w in pts if reachable(p["prog"], w[0])]
             if kind == "scan_eof":
                 pts = [w for w in pts if w[1] == len(w[0]) and (w[0] is p["prog"] or any(st["k"] == "include" and st["b"] is w[0] for st, _, _ in walk(p["prog"])))]
